@@ -12,7 +12,7 @@ FILES = [
 
 # (spec, quick len, thorough len, timeout quick, timeout thorough)
 STR_SPECS = [
-    ("prefix", 3, 5), ("list", 3, 4), ("nested", 3, 4), ("amb", 2, 4), ("rec", 3, 5), ("uni", 3, 4), ("open", 3, 5),
+    ("prefix", 3, 5), ("list", 3, 4), ("nested", 3, 4), ("amb", 2, 4), ("rec", 3, 5), ("uni", 3, 4), ("open", 3, 5), ("zeromin", 3, 4),
 ]
 
 
@@ -36,6 +36,7 @@ def run(tier):
     for spec, alpha, ql, tl in RX_SPECS:
         conds.append(Cond("h_parse_str.py", "sound_fa", 600 if tier == "quick" else 2400, twin="reach_fa" if spec == "rx2" else None,
                           env={"H_SPEC": spec, "H_LEN": str(ql if tier == "quick" else tl), "H_ALPHA": alpha}))
+    conds.append(Cond("h_parse_api.py", "api_repetition", 900 if tier == "quick" else 2400, twin="reach_rep", env={"H_RLEN": "4" if tier == "quick" else "5"}))
     conds.append(Cond("h_parse_api.py", "bytes_sound", 600 if tier == "quick" else 2400, twin="reach_bytes", env={"H_BLEN": "2" if tier == "quick" else "3"}))
     run.run_conditions(conds, conformance_harnesses=["h_parse_str.py", "h_parse_api.py"])
     run.encoded = ["IterativeParser.new_parse/consume/_consume/predict/scan_bytes/complete/place_repetition_shortcut/"
@@ -46,6 +47,7 @@ def run(tier):
                   "grammars": [s for s, _, _ in STR_SPECS]}
     run.bounds["api level"] = "Grammar.parse_forest after one prior request (none / prefix-mode parse / first-tree request / other word / both modes) on words over the spec's letters"
     run.bounds["regex terminals"] = "5 grammars with regex terminals (one matching the empty string, one optional digit, one under a star) on ALL words over a 2-4 letter alphabet up to length 3-4 (finite alphabet: the regex engines realise the word)"
+    run.bounds["api constraint filter"] = "Fandango.parse on a spec with a computed repetition whose count symbol can be read two ways: ALL words over {1,2,x,;} up to length 4 (5): every yielded tree has exactly int(<n>) items"
     run.bounds["bytes input"] = "bytes words of length <= 2 (3) over {e9,78,c3,a9,00,79} against a grammar mixing non-ASCII str literals and bytes literals"
     run.outside = ["regex terminals on words outside the stated finite alphabets", "words longer than the bound",
                    "grammars outside the fixed family", "the constraint filter of Fandango.parse (see C07/C02 checks)"]
